@@ -50,10 +50,86 @@ pub fn ser_hashes(lines: &[Value], opts: &TableOpts) -> Vec<String> {
         .collect()
 }
 
+/// Re-weighted instance: the loop numbers and spanning flags of a line do not depend on the weights, so the
+/// same structure decides the table for ANY weights.  The harness draws weights over 19 orders of magnitude
+/// (far outside TLC's 32-bit lattice), evaluates omega = sum w - D/2 l - [s] dod and the J recursion exactly
+/// (BigRational on the exact values of the doubles) from the TLC-computed l and s, and compares the real table.
+fn reweighted(inst: &Value, i: u64, opts: &TableOpts, sm: &mut Summary) {
+    use num::rational::BigRational as Q;
+    use num::{Signed, ToPrimitive, Zero, One};
+    let g = InstGraph::parse(&inst["g"]);
+    let e = g.ne();
+    if e == 0 || e > 6 { return; }
+    let mut rng = rng_for(opts.seed ^ 0x5151, i + opts.base_idx);
+    const PAL: [f64; 14] = [1e-13, 1e-11, 1e-9, 1e-6, 1e-3, 0.3, 1.0 / 3.0, 0.7, 1.0, 1.5, 2.5, 1e3, 1e6, 1e9];
+    let small_bias = rng.gen_bool(0.5);
+    let w: Vec<f64> = (0..e).map(|_| if small_bias && rng.gen_bool(0.4) { PAL[rng.gen_range(0..4)] } else { PAL[rng.gen_range(4..11)] }).collect();
+    let wq: Vec<Q> = w.iter().map(|&x| Q::from_float(x).unwrap()).collect();
+    let n = 1usize << e;
+    let half_d = Q::new((g.d as i64).into(), 2.into());
+    let lq = |id: usize| Q::from_integer(as_i64(&inst["l"][id]).into());
+    let sum = |id: usize| (0..e).filter(|b| id >> b & 1 == 1).fold(Q::zero(), |a, b| a + &wq[b]);
+    let dod = sum(n - 1) - &half_d * lq(n - 1);
+    let gd: Vec<Q> = (0..n).map(|id| if id == 0 { Q::one() } else {
+        sum(id) - &half_d * lq(id) - if inst["s"][id].as_bool().unwrap() { dod.clone() } else { Q::zero() } }).collect();
+    let div = (1..n - 1).any(|id| !gd[id].is_positive());
+    let tiny = Q::from_float(1e-9).unwrap();
+    let near = (1..n - 1).any(|id| gd[id].abs() <= tiny);
+    let map = g.label_map(&mut rng, false);
+    let mut spec = g.to_spec_messy(&map, &[], &mut rng);
+    spec.weights = w.clone();
+    let l = inst["L"].as_i64().unwrap_or(1).max(1) as usize;
+    let out = build(&spec, vec![vec![0isize; l]; e], g.d);
+    sm.count("reweighted_instances");
+    let ident = json!({"line": inst, "idx": i + opts.base_idx, "reweighted": w.iter().map(|x| hexf(*x)).collect::<Vec<_>>(), "weights": w});
+    let q2f = |q: &Q| -> f64 { q.numer().to_f64().unwrap_or(f64::NAN) / q.denom().to_f64().unwrap_or(f64::NAN) };
+    match &out {
+        BuildOut::Panic(m) => { sm.violation("C05", format!("build_sampler panicked (re-weighted instance): {}", m), ident, json!({"reweighted": true})); }
+        BuildOut::Err(_) => { if !div && !near { sm.violation("C05", "build_sampler returned Err although every proper subset has omega > 1e-9 (re-weighted instance)".into(), ident, json!({"reweighted": true})); } }
+        BuildOut::Ok(s) => {
+            if div && !near { sm.violation("C05", "build_sampler returned Ok although a proper subset has omega < -1e-9 (re-weighted instance)".into(), ident, json!({"reweighted": true})); return; }
+            let js = s.to_json();
+            let tbl = arr(&js["table"]["table"]);
+            if tbl.len() != n { return; }
+            let wabs: f64 = w.iter().sum::<f64>() + g.d as f64 / 2.0 * l as f64;
+            let mut bad = vec![];
+            for id in 0..n {
+                let t = &tbl[id];
+                let gdc = t["generalized_dod"].as_f64().unwrap_or(f64::NAN);
+                let want = q2f(&gd[id]);
+                // the code's omega carries the rounding of a few additions of numbers of size <= wabs
+                let tol = 16.0 * (e as f64 + 2.0) * f64::EPSILON * (wabs + q2f(&dod).abs());
+                if as_i64(&t["loop_number"]) != as_i64(&inst["l"][id]) || t["mass_momentum_spanning"].as_bool() != inst["s"][id].as_bool() || !((gdc - want).abs() <= tol) {
+                    bad.push(json!({"id": id, "code": gdc, "exact": want, "tol": tol}));
+                }
+            }
+            sm.add("reweighted_entries_compared", n as i64);
+            if !bad.is_empty() { sm.violation("C03", format!("{} table entries of a re-weighted instance differ from the exact values", bad.len()), ident.clone(), json!({"entries": bad, "reweighted": true})); }
+            // J: exact recursion on the exact omegas, when every omega is comfortably positive relative to rounding
+            let safe = (1..n).all(|id| id == n - 1 || q2f(&gd[id]) > 1e4 * f64::EPSILON * wabs);
+            if !div && safe {
+                let mut jq: Vec<Q> = vec![Q::one(); n];
+                for id in 1..n { jq[id] = (0..e).filter(|b| id >> b & 1 == 1).fold(Q::zero(), |a, b| { let sub = id ^ (1 << b); a + &jq[sub] / &gd[sub] }); }
+                let mut badj = vec![];
+                for id in 0..n {
+                    let jc = tbl[id]["j_function"].as_f64().unwrap_or(f64::NAN);
+                    let want = q2f(&jq[id]);
+                    // relative error: E levels of (sum of positive terms) / omega, omega known to ~eps*wabs/omega relative
+                    let cond = (1..n).filter(|x| *x != n - 1).map(|x| wabs / q2f(&gd[x])).fold(1.0, f64::max);
+                    if !(rel_err(jc, want) <= 64.0 * e as f64 * f64::EPSILON * cond) { badj.push(json!({"id": id, "code": jc, "exact": want, "cond": cond})); }
+                }
+                sm.count("reweighted_j_compared");
+                if !badj.is_empty() { sm.violation("C04", format!("{} J entries of a re-weighted instance differ from the exact recursion", badj.len()), ident, json!({"entries": badj, "reweighted": true})); }
+            }
+        }
+    }
+}
+
 pub fn run(lines: &[Value], opts: &TableOpts, other_process_hashes: Option<Vec<String>>) -> Summary {
     let mut sm = Summary::default();
     for (i, inst) in lines.iter().enumerate() {
         sm.evaluations += 1;
+        if (i as u64 + opts.seed) % 5 == 0 || lines.len() == 1 { reweighted(inst, i as u64, opts, &mut sm); }
         let (g, map, _swap, out) = build_for(inst, i as u64 + opts.base_idx, opts);
         let e = g.ne();
         let div = inst["div"].as_bool().unwrap();
